@@ -25,10 +25,80 @@ RUNS = [
          quick=dict(explore=200000), thorough=dict(explore=2000000)),
     dict(name="event-k4", prim="event", cfg="4 0", flavours=["local"],
          quick=dict(explore=0), thorough=dict(explore=3000000), corpus=False),
+    # mutex: cfg = slots, fair
+    dict(name="mutex-k3-unfair", prim="mutex", cfg="3 0", flavours=["local", "sync"],
+         quick=dict(explore=500000, random=(300, 80)), thorough=dict(explore=500000, random=(5000, 300)), random_cfg="10 0"),
+    dict(name="mutex-k3-fair", prim="mutex", cfg="3 1", flavours=["local", "sync"],
+         quick=dict(explore=500000, random=(300, 80)), thorough=dict(explore=500000, random=(5000, 300)), random_cfg="10 1"),
+    dict(name="mutex-k4-unfair", prim="mutex", cfg="4 0", flavours=["local"],
+         quick=dict(explore=0), thorough=dict(explore=3000000), corpus=False),
+    dict(name="mutex-k4-fair", prim="mutex", cfg="4 1", flavours=["local"],
+         quick=dict(explore=0), thorough=dict(explore=3000000), corpus=False),
+    # semaphore: cfg = slots, fair, initial permits, max request, max releasers, permit budget, fixed(=1: the model the theorems are about)
+    dict(name="sem-k2-unfair", prim="semaphore", cfg="2 0 0 3 1 3 1", flavours=["local", "sync", "shared"],
+         quick=dict(explore=400000, random=(300, 80)), thorough=dict(explore=400000, random=(5000, 300)), random_cfg="8 0 2 4 4 12 1"),
+    dict(name="sem-k2-fair", prim="semaphore", cfg="2 1 0 3 1 3 1", flavours=["local", "sync", "shared"],
+         quick=dict(explore=400000, random=(300, 80)), thorough=dict(explore=400000, random=(5000, 300)), random_cfg="8 1 2 4 4 12 1"),
+    dict(name="sem-k2-unfair-p1", prim="semaphore", cfg="2 0 1 3 2 3 1", flavours=["local"],
+         quick=dict(explore=400000), thorough=dict(explore=400000)),
+    dict(name="sem-k2-fair-p1", prim="semaphore", cfg="2 1 1 3 2 3 1", flavours=["local"],
+         quick=dict(explore=400000), thorough=dict(explore=400000)),
+    dict(name="sem-k3-unfair", prim="semaphore", cfg="3 0 0 2 1 2 1", flavours=["local", "shared"],
+         quick=dict(explore=0), thorough=dict(explore=3000000), corpus=False),
+    dict(name="sem-k3-fair", prim="semaphore", cfg="3 1 0 2 1 2 1", flavours=["local", "shared"],
+         quick=dict(explore=0), thorough=dict(explore=3000000), corpus=False),
 ]
+
+MUTEX_RUNS = ["mutex-k3-unfair", "mutex-k3-fair", "mutex-k4-unfair", "mutex-k4-fair"]
+SEM_RUNS = ["sem-k2-unfair", "sem-k2-fair", "sem-k2-unfair-p1", "sem-k2-fair-p1", "sem-k3-unfair", "sem-k3-fair"]
 
 # ---------------------------------------------------------------------------------------------
 PROPS = {
+    "C02": dict(
+        level="proof", coq_files=["Properties/C02.v"],
+        theorems={"Properties/C02.v": ["C02_guards_le_1", "C02_grant_only_when_free", "C02_guard_count", "C02_is_locked_exact"]},
+        runs=MUTEX_RUNS, keys=["r", "p"], assumptions=[SCHED_NOTE],
+        level_text="Theorems over every reachable state of the mutex model (any number of lock futures, both fairness modes): guards <= 1, locked iff one guard, a poll/try_lock completes only from a guard-free state and creates exactly one, is_locked() exact. Model tied to the crate by exhaustive model-guided exploration (k=3 fixpoint, local and parking_lot flavours) comparing results, is_locked() and the number of guard objects the harness holds.",
+        level_note="Exclusive access to T follows from guards<=1 only under the atomicity assumptions (lock_api mutual exclusion; all state inside the lock). " + SCHED_NOTE,
+    ),
+    "C03": dict(
+        level="proof", coq_files=["Properties/C03.v"],
+        theorems={"Properties/C03.v": ["C03_woken_when_free", "C03_pending_is_arrivals", "C03_progress"]},
+        runs=MUTEX_RUNS, keys=["r", "w"], assumptions=[SCHED_NOTE],
+        level_text="Theorem over all histories: whenever the mutex is free and lock futures are pending, a pending future (fair: the oldest in trace-recomputed arrival order) has been woken since its last poll through the waker of that poll (tracker defined on the observable trace); a notified future polled while free succeeds. Correspondence compares results and ordered wake lists on every transition of the k=3 state space with waker swaps.",
+        level_note="Liveness ('eventually completes') is given as the safety invariant + one-step progress lemma, not as a temporal theorem. " + SCHED_NOTE,
+    ),
+    "C04": dict(
+        level="proof", coq_files=["Properties/C04.v"],
+        theorems={"Properties/C04.v": ["C04_fifo", "C04_queue_is_arrivals", "C04_drop_is_filter"]},
+        runs=["mutex-k3-fair", "mutex-k4-fair"], keys=["r"],
+        level_text="Theorem over all fair-mode histories: a lock future completes only if it is the oldest pending one in the arrival order recomputed from the trace, try_lock only if nobody is pending; the wait queue equals that arrival order; drop = filter. Correspondence compares every result on the fair state space.",
+        level_note="Kernel-checked on the Gallina model; tie to the code by differential execution.",
+    ),
+    "C05": dict(
+        level="proof", coq_files=["Properties/C05.v"],
+        theorems={"Properties/C05.v": ["C05_ledger", "C05_grant_exact", "C05_releaser_once", "C05_disarm"]},
+        runs=SEM_RUNS, keys=["r", "p"], assumptions=[SCHED_NOTE, "permits + release amounts stay below usize::MAX (source has a TODO: overflow check)"],
+        monitor=dict(id=5, runs=["sem-k2-unfair", "sem-k2-fair"]),
+        level_text="Theorem over all histories (fair/unfair, any requests, with or without the wake-up repairs): the ledger monitor over the observable trace holds - permits() = initial + released - taken + returned after every call, grants only when enough permits and of exactly n, releaser returns its amount once, zero after disarm. Correspondence: results (incl. observed permit deltas) and permits() on every transition, borrowed, parking_lot and shared flavours.",
+        level_note="Overflow of the permit counter is excluded by the contract predicate. " + SCHED_NOTE,
+    ),
+    "C06": dict(
+        level="proof", coq_files=["Properties/C06.v"],
+        theorems={"Properties/C06.v": ["C06_head_not_stranded", "C06_progress", "C06_refuted_pinned"]},
+        runs=SEM_RUNS, keys=["r", "w", "p"], assumptions=[SCHED_NOTE, "wakers private to each future (so that wake events are attributable from the trace)"],
+        monitor=dict(id=6, runs=["sem-k2-unfair", "sem-k2-fair"]),
+        level_text="Theorem over all histories of the repaired code, both fairness modes: at every quiescent point, if requests are pending and none holds an unconsumed wake-up then the longest-waiting one (ordering rule of the property, recomputed from the trace) does not fit into permits(); notified request that fits completes when polled; plus a machine-checked refutation for the pre-repair model (finding D1a). Correspondence on results, ordered wakes and permits(); the extracted monitor is also evaluated on the crate's own traces to exhibit a failing history.",
+        level_note="'Eventually completes' is the invariant + one-step progress, not a temporal theorem. " + SCHED_NOTE,
+    ),
+    "C07": dict(
+        level="proof", coq_files=["Properties/C07.v"],
+        theorems={"Properties/C07.v": ["C07_fifo", "C07_queue_is_arrivals", "C07_drop_is_filter"]},
+        runs=["sem-k2-fair", "sem-k2-fair-p1", "sem-k3-fair"], keys=["r"],
+        monitor=dict(id=7, runs=["sem-k2-fair"]),
+        level_text="Theorem over all fair-mode histories: the fair-order monitor holds (a request n>0 completes only as the oldest pending one or with nobody pending; n=0 completes at once), the queue equals the trace-recomputed arrival order, cancel = filter. Correspondence on every result of the fair state spaces.",
+        level_note="Kernel-checked on the Gallina model; tie to the code by differential execution.",
+    ),
     "C14": dict(
         level="proof",
         coq_files=["Properties/C14.v"],
